@@ -13,6 +13,15 @@ Theorem C03_holds : forall i : input, wf i = true -> finding_F2 i = false -> spe
 Proof. exact model_meets_spec. Qed.
 Print Assumptions C03_holds.
 
+(* The correspondence also runs programs on cases configured with a RunTest factory of their own (class
+   attribute run_tests_with, the runTest= constructor argument, @run_test_with; RunTest subclasses and functions
+   with explicit / star / keyword-only / ** signatures, functools.partial, callable objects, bound methods,
+   factories written for the API before last_resort - Model.Run.factory).  The Gallina input leaves the
+   configuration out: the run of such a case IS the run with the default RunTest. *)
+Theorem C03_factory_irrelevant : forall r p s, run_from_runner r p s = run_from p s.
+Proof. exact factory_irrelevant. Qed.
+Print Assumptions C03_factory_irrelevant.
+
 Theorem C03_statement : forall i o, spec_okb i o = true -> Spec i o.
 Proof. exact spec_okb_sound. Qed.
 Print Assumptions C03_statement.
